@@ -170,6 +170,7 @@ class Body:
         self.src = source.src
         self.edits = []   # (start, end, replacement, rule, note)
         self.report = []  # (rule, original text)
+        self.lost_hints = []
         self.params = param_names(toks, self.fn_idx, self.open)
         self.is_async = self.fn_idx > 0 and toks[self.fn_idx - 1].text == "async"
         self.first_line = source.line_of(toks[self.open].start)
@@ -183,8 +184,8 @@ class Body:
         self.edits.append((start, end, repl, rule))
         self.report.append((rule, (note if note is not None else self.src[start:end]).strip()[:200]))
 
-    def insert(self, pos, text, rule="template"):
-        self.edits.append((pos, pos, text, rule))
+    def insert(self, pos, text, rule="template", order=0):
+        self.edits.append((pos, pos, text, rule, order))
 
     def signature_text(self):
         return self.text(self.fn_idx, self.open - 1)
@@ -426,7 +427,7 @@ class Body:
                                     break
                             k -= 1
                         if toks[k - 1].text == "::":
-                            i = k - 1
+                            i = k - 2
                             continue
                         return i
                     i -= 1
@@ -478,7 +479,7 @@ class Body:
                     continue
                 rs = self.receiver_start(i)
                 orig = self.src[toks[rs].start:toks[k].end]
-                self.edits.append((toks[rs].start, toks[rs].start, pre, "R5-m2f"))
+                self.edits.append((toks[rs].start, toks[rs].start, pre, "R5-m2f", -toks[i].start))
                 if has_args and req_args is None:
                     pa = post_a
                     if k == j + 1:  # no arguments
@@ -642,10 +643,11 @@ class Body:
         output line i came from (None for lines made only of inserted text)."""
         lo = self.toks[self.open].start
         hi = self.toks[self.close].end
-        edits = sorted(self.edits, key=lambda e: (e[0], 0 if e[1] == e[0] else 1, -(e[1] - e[0])))
+        edits = sorted(self.edits, key=lambda e: (e[0], 0 if e[1] == e[0] else 1, (e[4] if len(e) > 4 else 0), -(e[1] - e[0])))
         chunks = []
         pos = lo
-        for (a, b, r, rule) in edits:
+        for e in edits:
+            a, b, r, rule = e[0], e[1], e[2], e[3]
             if a < lo or b > hi:
                 continue
             if a < pos:
